@@ -23,3 +23,23 @@ Theorem C19i_shipped : forall s, In s FlowGraph.secrets ->
   (forall sd, In sd FlowGraph.seed_sites -> ~ flows FlowGraph.graph sd s).
 Proof. exact (C19_sound _ _ _ C19i_secrets_ok). Qed.
 Print Assumptions C19i_shipped.
+
+(* every definition site of every secret (regenerated with the graph): one list per secret, none empty,
+   each site flows into its secret and is OS-fed with no weak source *)
+Theorem C19i_sites_cover_secrets : map fst FlowGraph.sites = FlowGraph.secrets.
+Proof. vm_compute. reflexivity. Qed.
+Print Assumptions C19i_sites_cover_secrets.
+
+Theorem C19i_sites_ok : sites_ok FlowGraph.graph FlowGraph.seed_sites FlowGraph.sites = true.
+Proof. vm_compute. reflexivity. Qed.
+Print Assumptions C19i_sites_ok.
+
+Theorem C19i_every_site_os_fed : forall secret l, In (secret, l) FlowGraph.sites ->
+  l <> [] /\
+  forall site, In site l ->
+    flows FlowGraph.graph site secret /\
+    (forall n k, flows FlowGraph.graph n site -> kind_at FlowGraph.graph n k -> k <> KPrng /\ k <> KTime /\ k <> KSeed) /\
+    (exists n, flows FlowGraph.graph n site /\ kind_at FlowGraph.graph n KOS) /\
+    (forall sd, In sd FlowGraph.seed_sites -> ~ flows FlowGraph.graph sd site).
+Proof. exact (C19_every_site_os_fed _ _ _ _ C19i_secrets_ok C19i_sites_ok). Qed.
+Print Assumptions C19i_every_site_os_fed.
